@@ -24,7 +24,7 @@ Reset(e) ==
   /\ pc' = [p \in Procs |-> CHOOSE n \in StartOfP(e.progs[p], 1, {}, {}) : TRUE]
   /\ retries' = [p \in Procs |-> 0]
   /\ outcome' = [p \in Procs |-> "run"]
-  /\ data' = [f \in Files |-> [exists |-> e.exists[f], ver |-> 0]]
+  /\ data' = [f \in Files |-> [exists |-> e.exists[f], ver |-> 0, empty |-> FALSE]]
   /\ lockf' = [f \in Files |-> NoProc]
   /\ rlockf' = [f \in Files |-> {}]
   /\ tempf' = [f \in Files |-> NoProc]
